@@ -183,7 +183,11 @@ def simp(t):
         if op == ">=":
             return simp(("cmp", "<=", b, a))
         if op in ("==", "!=") and key(a) > key(b):
-            return ("cmp", op, b, a)
+            a, b = b, a
+            t = ("cmp", op, a, b)
+        if op in ("is", "isnot") and is_const(a) and is_const(b) and (a[1] is None or b[1] is None):
+            same = a[1] is None and b[1] is None
+            return C(same if op == "is" else not same)
         if is_const(a) and is_const(b) and op in ("<", "<=", "==", "!="):
             try:
                 return C({"<": a[1] < b[1], "<=": a[1] <= b[1], "==": a[1] == b[1], "!=": a[1] != b[1]}[op])
@@ -403,11 +407,12 @@ class SymX:
                 # mutator calls on locals: append
                 c = s.value
                 if isinstance(c.func, ast.Attribute) and isinstance(c.func.value, ast.Name) and c.func.value.id in st.env \
-                        and c.func.attr in ("append", "extend", "add") and len(c.args) == 1 and not self._resolves(c, f) \
-                        and st.env[c.func.value.id][0] not in ("mcall", "idx", "attr", "call", "apply"):
+                        and c.func.attr in ("append", "extend", "add", "update") and len(c.args) == 1 and not self._resolves(c, f) \
+                        and st.env[c.func.value.id][0] not in ("mcall", "idx", "attr", "call", "apply", "dict") \
+                        and not (c.func.attr == "update" and not self._listy(st.env[c.func.value.id]) and st.env[c.func.value.id][0] != "set"):
                     n = c.func.value.id
                     arg = ev(c.args[0])
-                    if c.func.attr == "extend":
+                    if c.func.attr in ("extend", "update"):
                         st.env[n] = simp(("cat", st.env[n], arg))
                     else:
                         st.env[n] = simp(("cat", st.env[n], ("list", (arg,))))
@@ -603,7 +608,7 @@ class SymX:
                     if not comp:
                         names.append(n.id)
                 if isinstance(n, ast.Call) and isinstance(n.func, ast.Attribute) and isinstance(n.func.value, ast.Name) \
-                        and n.func.attr in ("append", "extend", "add") and n.func.value.id not in names:
+                        and n.func.attr in ("append", "extend", "add", "update") and n.func.value.id not in names:
                     names.append(n.func.value.id)
                 if isinstance(n, ast.Subscript) and isinstance(n.ctx, ast.Store) and isinstance(n.value, ast.Name) \
                         and n.value.id not in names:
@@ -703,6 +708,11 @@ class SymX:
             loop.update[v] = self._with_snaps(after, v)
         loop.effects = after.effects
         loop.has_break = after.env.get("$broke", FALSE) != FALSE
+        loop.break_cond = FALSE
+        for k_, e_ in after.snaps:
+            if e_.get("$broke", FALSE) != FALSE:
+                loop.break_cond = mk_or(loop.break_cond, k_)
+        loop.break_envs = [(k_, e_) for k_, e_ in after.snaps if e_.get("$broke", FALSE) != FALSE]
         loop.has_return = after.env.get("$returned", FALSE) != st.env.get("$returned", FALSE)
         loop.cont = after.env.get("$cont", FALSE)
         for v in carried:
@@ -760,7 +770,7 @@ class SymX:
         return ("truthy", t)
 
     def _listy(self, t, depth=0):
-        if t[0] in ("list", "cat", "compr", "flatten", "repeat"):
+        if t[0] in ("list", "cat", "compr", "flatten", "repeat", "set"):
             return True
         if t[0] == "res" and depth < 6 and t[1] in self.loops:
             init = self.loops[t[1]].init.get(t[2])
@@ -953,13 +963,16 @@ class SymX:
                 and self.cls_name and st.env.get("self") == ("v", "self"):
             m = self.prog.resolve_method(self.cls_name, c.func.attr)
             if m is not None and depth < self.inline_depth:
-                return self.inline(m, (("v", "self"),) + args, kws, st, depth)
+                static = any(isinstance(d, ast.Name) and d.id == "staticmethod" for d in m.node.decorator_list)
+                return self.inline(m, (args if static else (("v", "self"),) + args), kws, st, depth)
         if isinstance(c.func, ast.Name) and c.func.id in st.env:
             fv = st.env[c.func.id]
             if fv[0] == "closure" and depth < self.inline_depth + 2:
                 return self.inline_closure(fv[1], args, kws, st, depth)
             if fv[0] == "v" and fv[1] in f.mod.funcs and depth < self.inline_depth and fv[1] not in self.no_inline:
                 return self.inline(f.mod.funcs[fv[1]], args, kws, st, depth)
+            if fv[0] == "call" and fv[1] in ("methodcaller", "operator.methodcaller") and fv[2] and is_const(fv[2][0]) and isinstance(fv[2][0][1], str) and len(args) == 1:
+                return ("mcall", args[0], fv[2][0][1], tuple(fv[2][1:]), tuple(fv[3]))
             if fv[0] != "v" or fv[1] != c.func.id:
                 return ("apply", fv, args, kws)
         callees = self.ctx.cg.resolve(c, f)
